@@ -271,12 +271,15 @@ def check_dispatch(ctx):
     # negative conversion adds len(self) exactly where negative
     adds = [c for c in calls_in(fn) if u(c.func) == 'np.add'] + [c for c in calls_in(fn) if u(c.func) == 'np.where']
     okn = False
+    negname = None
     for c in adds:
         if u(c.func) == 'np.add':
-            okn = okn or ([u(a) for a in c.args] == [ip, 'len(self)'] and u(get_kw(c, 'where')) == 'isneg')
+            okn = okn or ([u(a) for a in c.args] == [ip, 'len(self)'] and isinstance(get_kw(c, 'where'), ast.Name))
+            negname = u(get_kw(c, 'where')) if get_kw(c, 'where') is not None else negname
         else:
-            okn = okn or (len(c.args) == 3 and u(c.args[0]) == 'isneg' and u(c.args[1]) in (f'{ip} + len(self)', f'len(self) + {ip}') and u(c.args[2]) == ip)
-    isn = [s for s in stmts_in(fn.body) if isinstance(s, ast.Assign) and u(s.targets[0]) == 'isneg']
+            okn = okn or (len(c.args) == 3 and isinstance(c.args[0], ast.Name) and u(c.args[1]) in (f'{ip} + len(self)', f'len(self) + {ip}') and u(c.args[2]) == ip)
+            negname = u(c.args[0]) if c.args else negname
+    isn = [s for s in stmts_in(fn.body) if isinstance(s, ast.Assign) and u(s.targets[0]) == negname]
     okn = okn and len(isn) == 1 and atoms(isn[0].value) == {('lt', ip, '0')}
     rep.add('X1', fi.site(adds[0] if adds else fn), 'negative entries are converted by adding len(self), others untouched', okn, expected='index + len(self) where index < 0', found=[u(c) for c in adds], stmt='negative conversion')
 
